@@ -258,6 +258,32 @@ def errlike(rng):
                        {"k": "ptr", "e": {"k": "alias", "pkg": "os", "n": "PathError", "targs": []}}, named("net", "Error")])
 
 
+def inject_slice_results(rng, ifaces, p=0.5):
+    """Variadic methods WITH results whose types are slices / maps of slices (a result must never be
+    described as variadic)."""
+    sl = lambda t: {"k": "slice", "e": t}
+    for i in ifaces:
+        for mm in i["methods"]:
+            sig = mm["sig"]
+            if not sig["variadic"] or rng.random() >= p:
+                continue
+            named_res = any(r["n"] for r in sig["results"])
+            choices = [[sl(basic("int"))], [{"k": "map", "key": basic("string"), "e": sl(basic("int"))}, basic("error")],
+                       [sl(basic("string")), sl(basic("error"))], [sl(sl(named("", "Local")))], [basic("int"), sl(basic("byte"))]]
+            ts = rng.choice(choices)
+            used = {x["n"] for x in sig["params"]}
+            res = []
+            for j, t in enumerate(ts):
+                n = ""
+                if named_res:
+                    n = "out%d" % j
+                    while n in used:
+                        n += "R"
+                res.append({"n": n, "t": t})
+            sig["results"] = res
+            GEN_STATS["slice_results"] = GEN_STATS.get("slice_results", 0) + 1
+
+
 def inject_error_like(rng, ifaces, p=0.2):
     """Some methods get a result that merely implements error (alone, next to other results, or
     next to a real error)."""
@@ -299,6 +325,7 @@ def gen_module(rng, nsrc, **genkw):
         for kk, vv in g.stats.items():
             GEN_STATS[kk] = GEN_STATS.get(kk, 0) + vv
         inject_error_like(rng, mm["ifaces"])
+        inject_slice_results(rng, mm["ifaces"])
         base = base or mm
         srcs.append({"path": mm["src"]["path"], "name": mm["src"]["name"], "ifaces": mm["ifaces"], "nonascii": mm["nonascii"]})
     return {"mod": MOD, "ext": base["ext"], "std": base["std"], "srcs": srcs}
@@ -532,6 +559,10 @@ def assertion_file(m, k, placement):
         # the declaration only compiles when the comparison is true)
         for mm in method_set(i, known_ifaces(dict(m, **s))):
             out.append('var _ = map[bool]int{false: 0, ZZ_%s_%s_flags == "%s": 1}' % (i["name"], mm["n"], expected_flags(mm["sig"])))
+            # Variadic of each variable: only the last parameter of a variadic signature; never a result
+            np_ = len(mm["sig"]["params"])
+            pv = "".join(" true" if (mm["sig"]["variadic"] and j == np_ - 1) else " false" for j in range(np_))
+            out.append('var _ = map[bool]int{false: 0, ZZ_%s_%s_variadic == "P:%s R:%s": 1}' % (i["name"], mm["n"], pv, " false" * len(mm["sig"]["results"])))
         out.append("")
     return "\n".join(out)
 
@@ -690,6 +721,8 @@ def go_check(root):
         pl = "out" if d.startswith("mocks/") else "sn" if d.startswith("mocks2/") else ("xt" if f.endswith("_test.go") else "in")
         key = (d.split("/")[-1], pl)
         msg = re.sub(r'"[^"]*/([^"/]+)"\.', r"\1.", msg)
+        if msg.strip() == "too many errors":       # the compiler's cut-off notice (go list has no -gcflags=-e), not a finding
+            continue
         if msg not in res.setdefault(key, []):
             res[key].append(msg)
     return res
@@ -1121,7 +1154,7 @@ def check(ctx, only=None):
     ctx.write_evidence(gate, evaluations, len(nontrivial),
                        "one evaluation = one output file's complete data-model dump compared with the model (every accessor of every method/parameter) or one package x placement type-checked by the re-emission oracle; non-trivial = the file has an aliased import or a name changed by collision resolution; distinct by hash of the dump",
                        samples,
-                       extra={"input_histogram": dict(hist, **{"generator: dense multi-mention types": GEN_STATS.get("dense", 0), "generator: methods with a name tuple X, X1": GEN_STATS.get("tuples", 0), "generator: wide methods (3-10 long-named parameters)": GEN_STATS.get("wide", 0), "generator: methods with a result that implements error without being error": GEN_STATS.get("errlike", 0)}), "model_mismatches": len(corr_bad), "oracle_failed": oracle_failed,
+                       extra={"input_histogram": dict(hist, **{"generator: dense multi-mention types": GEN_STATS.get("dense", 0), "generator: methods with a name tuple X, X1": GEN_STATS.get("tuples", 0), "generator: wide methods (3-10 long-named parameters)": GEN_STATS.get("wide", 0), "generator: methods with a result that implements error without being error": GEN_STATS.get("errlike", 0), "generator: variadic methods with slice / map-of-slice results": GEN_STATS.get("slice_results", 0)}), "model_mismatches": len(corr_bad), "oracle_failed": oracle_failed,
                               "mockery_runs": 2 * len(modules) + (7 if only is None else 0), "phase_seconds": phase},
                        assumptions=["go/types method-set completion and method order are recomputed by the harness (exported names by name, then unexported) and are inputs of the model",
                                     "go/parser (harness/go/gotype) is trusted to read Go type expressions; identifier visibility (exported/unexported across packages) is not modelled: interfaces that cannot be named from another package are rendered in-package only",
